@@ -828,15 +828,18 @@ impl<'a> Lexer<'a> {
                             // Line continuation
                         }
                         Some((_, c)) => value.push(c),
-                        None => break,
+                        // Unterminated string (end of input after a backslash)
+                        None => return TokenKind::Invalid(quote),
                     }
                 }
                 Some((_, '\n')) => {
-                    // Unterminated string
-                    break;
+                    // Unterminated string: a line terminator inside a string literal is a
+                    // syntax error that must be reported at the literal itself
+                    return TokenKind::Invalid(quote);
                 }
                 Some((_, c)) => value.push(c),
-                None => break,
+                // Unterminated string (end of input)
+                None => return TokenKind::Invalid(quote),
             }
         }
 
@@ -994,8 +997,8 @@ impl<'a> Lexer<'a> {
             }
         }
 
-        // Unterminated template
-        TokenKind::TemplateNoSub(self.string_dict.get_or_insert(&value))
+        // Unterminated template: reported at the start of the template token
+        TokenKind::Invalid('`')
     }
 
     /// Continue scanning a template literal after an expression
@@ -1091,7 +1094,8 @@ impl<'a> Lexer<'a> {
             }
         }
 
-        TokenKind::TemplateTail(self.string_dict.get_or_insert(&value))
+        // Unterminated template
+        TokenKind::Invalid('`')
     }
 
     /// Rescan template continuation from a given span position (the } token)
